@@ -17,4 +17,5 @@ INVARIANT TakesEffect
 INVARIANT CexPop
 INVARIANT PopRestores
 INVARIANT GateAdmits
+VIEW View
 CHECK_DEADLOCK FALSE
